@@ -617,6 +617,11 @@ func (g *seqGen) closeAndReopen(readonlySession bool) {
 		}
 		if res := g.emit(line); res == "ok" {
 			g.openLine = line
+			// sometimes the first call after a reopen is a Delete (before any read has loaded or rebuilt an index)
+			if g.fl.wDel > 0 && len(g.live) > 0 && r.chance(30) {
+				res := g.emit("del " + joinOffs(g.genOffsets()))
+				g.removeReported(res)
+			}
 			return
 		}
 	}
